@@ -56,6 +56,7 @@ type worldCfg struct {
 	BindingOld bool
 	BindingNew bool
 	Gap        uint32
+	Warm       uint64 // MASSIP0002 warm-up height (0 = mass-core's default)
 }
 
 var defaultConsensus = struct {
@@ -73,6 +74,10 @@ func newWorld(t *core.T, c worldCfg) *sim.World {
 	sim.InitProcess(filepath.Join(filepath.Dir(t.Dir), "log"))
 	sim.ResetFatalEvents()
 	consensus.CoinbaseMaturity = c.Maturity
+	if c.Warm > 0 {
+		consensus.MASSIP0002WarmUpHeight = c.Warm
+	}
+	consensus.MinFrozenPeriod = 2
 	n, err := sim.NewNode(filepath.Join(t.Dir, "node"))
 	if err != nil {
 		t.Fatalf("node: %v", err)
@@ -142,6 +147,9 @@ func reportLedgerDiffs(t *core.T, wd *sim.World, diffs map[string][]string, when
 
 func c01Case(t *core.T, maxSteps int) {
 	cfg := worldCfg{Maturity: uint64(t.R.Range(2, 7)), Wallets: t.R.Range(1, 3), Staking: t.R.Chance(50), BindingOld: t.R.Chance(30), BindingNew: t.R.Chance(25), Gap: 20}
+	if cfg.BindingNew {
+		cfg.Warm = uint64(t.R.Range(4, 20))
+	}
 	wd := newWorld(t, cfg)
 	defer closeWorld(t, wd)
 	g := &gate{}
